@@ -1031,3 +1031,201 @@ Proof.
   intros H. inversion H. simpl. apply frame_of_columns_lossless in E. rewrite map_length in *.
   rewrite E. clear. induction cols as [|[n l] t IH]; simpl; [reflexivity|]. rewrite IH. reflexivity.
 Qed.
+
+(* ================================================================== a collect during which a reporter raises *)
+(* the model-reporter loop appends as it goes: when it stops, exactly the first j reporters (dictionary order)
+   have one more value, the value evaluating them directly yields *)
+Definition mvars_prefix (w : world) (rs : list (Z * mrep)) (j : nat) (mv : list (Z * list snap)) : list (Z * list snap) :=
+  map (fun p => match aget (fst p) (firstn j rs) with
+                | Some r => (fst p, snd p ++ [mval_at w r])
+                | None => p
+                end) mv.
+
+Lemma mvars_prefix_0 w rs mv : mvars_prefix w rs 0 mv = mv.
+Proof. unfold mvars_prefix. simpl. rewrite <- (map_id mv) at 2. apply map_ext. intros p. reflexivity. Qed.
+
+Lemma firstn_In {A : Type} (n : nat) (l : list A) x : In x (firstn n l) -> In x l.
+Proof.
+  revert l. induction n as [|n IH]; intros l; simpl; [tauto|]. destruct l as [|y t]; simpl; [tauto|].
+  intros [H|H]; [left; exact H|right; apply IH; exact H].
+Qed.
+
+Lemma collect_mvars_spec w rs : NoDup (map fst rs) -> forall mv,
+  exists j, (j <= length rs)%nat /\
+    fst (collect_mvars w rs mv) = mvars_prefix w rs j mv /\
+    (forall p, In p (firstn j rs) -> res_ok (eval_mrep w (snd p)) = true) /\
+    match snd (collect_mvars w rs mv) with
+    | Ok _ => j = length rs
+    | Err e => exists p, nth_error rs j = Some p /\ eval_mrep w (snd p) = Err e
+    end.
+Proof.
+  induction rs as [|[n r] t IH]; intros Hnd mv.
+  - exists 0%nat. simpl. rewrite mvars_prefix_0. repeat split; [lia|tauto].
+  - inversion Hnd as [|? ? Hn Hnd']. subst. simpl collect_mvars.
+    destruct (eval_mrep w r) as [v|e] eqn:Ev.
+    + destruct (IH Hnd' (aappend n v mv)) as [j [Hj [Hf [Hok Hs]]]].
+      exists (S j). split; [simpl; lia|]. split; [|split].
+      * rewrite Hf. unfold mvars_prefix, aappend. rewrite map_map. apply map_ext. intros [k l]. simpl.
+        destruct (k =? n) eqn:E.
+        -- apply Z.eqb_eq in E. subst k. simpl.
+           assert (aget n (firstn j t) = None) as ->.
+           { apply notin_aget_None. intros Hin. apply Hn. apply in_map_iff in Hin. destruct Hin as [q [Hq1 Hq2]].
+             apply in_map_iff. exists q. split; [exact Hq1|]. apply (firstn_In j t). exact Hq2. }
+           unfold mval_at. rewrite Ev. reflexivity.
+        -- simpl. reflexivity.
+      * intros p [Hp|Hp]; [subst; simpl; rewrite Ev; reflexivity|apply Hok; exact Hp].
+      * destruct (snd (collect_mvars w t (aappend n v mv))); [simpl; lia|exact Hs].
+    + exists 0%nat. simpl. rewrite mvars_prefix_0. split; [lia|]. split; [reflexivity|]. split; [tauto|].
+      exists (n, r). split; [reflexivity|exact Ev].
+Qed.
+
+(* EXACTLY the state a raising collect leaves behind.  Four ways for collect to raise: *)
+Inductive raised (cfg : config) (w : world) (d : dc) (e : Z) (d' : dc) : Prop :=
+| RValidation :          (* (a) first collect, a model reporter fails validation: nothing is appended *)
+    is_nil (c_mreps cfg) = false -> d_validated d = false -> validate_all w (c_mreps cfg) = Err e ->
+    d' = with_validated d -> raised cfg w d e d'
+| RModelReporter j p :   (* (b) model reporter number j raises: reporters 0..j-1 HAVE their value appended, j.. have not;
+                                _collection_steps, agent and agent-type records untouched *)
+    nth_error (c_mreps cfg) j = Some p -> eval_mrep w (snd p) = Err e ->
+    (forall q, In q (firstn j (c_mreps cfg)) -> res_ok (eval_mrep w (snd q)) = true) ->
+    d' = with_mvars (with_validated d) (mvars_prefix w (c_mreps cfg) j (d_mvars d)) -> raised cfg w d e d'
+| RAgentReporter d1 :    (* (c) an agent reporter raises: model vars and _collection_steps are complete, no agent records *)
+    collect_stage1 cfg w d = (d1, Ok tt) -> is_nil (c_areps cfg) = false ->
+    record_agents w (c_areps cfg) (w_agents w) = Err e ->
+    d' = with_csteps d1 (d_csteps d1 ++ [w_steps w]) -> raised cfg w d e d'
+| RTypeReporter d1 d2 :  (* (d) an agent-type key / reporter raises: agent records done, _agenttype_records[steps] holds
+                                the classes processed before the failing one *)
+    collect_stage1 cfg w d = (d1, Ok tt) ->
+    collect_stage2 cfg w (with_csteps d1 (d_csteps d1 ++ [w_steps w])) = (d2, Ok tt) ->
+    is_nil (c_treps cfg) = false -> snd (collect_types w (c_treps cfg) []) = Err e ->
+    d' = with_trecs d2 (aset (w_steps w) (fst (collect_types w (c_treps cfg) [])) (d_trecs d2)) -> raised cfg w d e d'.
+
+Lemma collect_raises_state cfg w d d' e :
+  NoDup (map fst (c_mreps cfg)) -> collect cfg w d = (d', Err e) -> raised cfg w d e d'.
+Proof.
+  intros Hnd H. unfold collect in H.
+  destruct (collect_stage1 cfg w d) as [d1 r1] eqn:E1. destruct r1 as [u1|e1].
+  - destruct u1.
+    destruct (collect_stage2 cfg w (with_csteps d1 (d_csteps d1 ++ [w_steps w]))) as [d2 r2] eqn:E2.
+    destruct r2 as [u2|e2].
+    + destruct u2. unfold collect_stage3 in H. destruct (is_nil (c_treps cfg)) eqn:Et; [discriminate|].
+      destruct (collect_types w (c_treps cfg) []) as [inner r3] eqn:E3. inversion H. subst.
+      apply (RTypeReporter cfg w d e _ d1 d2 E1 E2 Et); rewrite E3; reflexivity.
+    + inversion H. subst. unfold collect_stage2 in E2. destruct (is_nil (c_areps cfg)) eqn:Ea; [discriminate|].
+      destruct (record_agents w (c_areps cfg) (w_agents w)) as [rows|e0] eqn:Er; [discriminate|].
+      inversion E2. subst. apply (RAgentReporter cfg w d e _ d1 E1 Ea Er eq_refl).
+  - inversion H. subst. unfold collect_stage1 in E1. destruct (is_nil (c_mreps cfg)) eqn:En; [discriminate|].
+    destruct (d_validated d) eqn:Ev.
+    + destruct (collect_mvars w (c_mreps cfg) (d_mvars (with_validated d))) as [mv r] eqn:Ec.
+      inversion E1. subst.
+      destruct (collect_mvars_spec w (c_mreps cfg) Hnd (d_mvars (with_validated d))) as [j [_ [Hf [Hok Hs]]]].
+      rewrite Ec in Hf, Hs. simpl in Hf, Hs. destruct Hs as [p [Hp He]].
+      apply (RModelReporter cfg w d e _ j p Hp He Hok). rewrite Hf. reflexivity.
+    + destruct (validate_all w (c_mreps cfg)) as [u|e0] eqn:Eva.
+      * destruct (collect_mvars w (c_mreps cfg) (d_mvars (with_validated d))) as [mv r] eqn:Ec.
+        inversion E1. subst.
+        destruct (collect_mvars_spec w (c_mreps cfg) Hnd (d_mvars (with_validated d))) as [j [_ [Hf [Hok Hs]]]].
+        rewrite Ec in Hf, Hs. simpl in Hf, Hs. destruct Hs as [p [Hp He]].
+        apply (RModelReporter cfg w d e _ j p Hp He Hok). rewrite Hf. reflexivity.
+      * inversion E1. subst. apply (RValidation cfg w d e _ En Ev Eva eq_refl).
+Qed.
+
+(* what a raising collect NEVER touches: the tables, and the agent / agent-type records of other steps *)
+Lemma collect_tables cfg w d : d_tables (fst (collect cfg w d)) = d_tables d.
+Proof.
+  unfold collect, collect_stage1, collect_stage2, collect_stage3.
+  destruct (is_nil (c_mreps cfg)).
+  - simpl. destruct (is_nil (c_areps cfg)); simpl.
+    + destruct (is_nil (c_treps cfg)); [reflexivity|]. destruct (collect_types w (c_treps cfg) []); reflexivity.
+    + destruct (record_agents w (c_areps cfg) (w_agents w)); simpl; [|reflexivity].
+      destruct (is_nil (c_treps cfg)); [reflexivity|]. destruct (collect_types w (c_treps cfg) []); reflexivity.
+  - destruct (if d_validated d then Ok tt else validate_all w (c_mreps cfg)); [|reflexivity].
+    destruct (collect_mvars w (c_mreps cfg) (d_mvars (with_validated d))) as [mv r]. destruct r; [|reflexivity].
+    simpl. destruct (is_nil (c_areps cfg)); simpl.
+    + destruct (is_nil (c_treps cfg)); [reflexivity|]. destruct (collect_types w (c_treps cfg) []); reflexivity.
+    + destruct (record_agents w (c_areps cfg) (w_agents w)); simpl; [|reflexivity].
+      destruct (is_nil (c_treps cfg)); [reflexivity|]. destruct (collect_types w (c_treps cfg) []); reflexivity.
+Qed.
+
+Lemma raised_other_steps cfg w d e d' s :
+  raised cfg w d e d' -> s <> w_steps w ->
+  aget s (d_arecs d') = aget s (d_arecs d) /\ aget s (d_trecs d') = aget s (d_trecs d).
+Proof.
+  intros H Hs. pose proof (collect_stage1_records cfg w d) as [A1 T1].
+  destruct H as [_ _ _ ->|j p _ _ _ ->|d1 E1 _ _ ->|d1 d2 E1 E2 _ _ ->]; simpl; try (split; reflexivity).
+  - rewrite E1 in A1, T1. simpl in *. rewrite A1, T1. split; reflexivity.
+  - rewrite E1 in A1, T1. simpl in A1, T1.
+    unfold collect_stage2 in E2. destruct (is_nil (c_areps cfg)).
+    + inversion E2. subst. simpl. rewrite A1, T1. split; [reflexivity|]. apply aget_aset_other. congruence.
+    + destruct (record_agents w (c_areps cfg) (w_agents w)); [|discriminate]. inversion E2. subst. simpl.
+      rewrite A1, T1. split; apply aget_aset_other; congruence.
+Qed.
+
+(* the finding: after case (b) with j >= 1 on a collector whose lists were aligned, the first reporter's list is one
+   longer than reporter j's list *)
+Lemma raised_ragged cfg w d j p n0 r0 :
+  NoDup (map fst (c_mreps cfg)) ->
+  nth_error (c_mreps cfg) 0 = Some (n0, r0) -> nth_error (c_mreps cfg) j = Some p -> (0 < j)%nat ->
+  forall l0 lj, aget n0 (d_mvars d) = Some l0 -> aget (fst p) (d_mvars d) = Some lj ->
+  aget n0 (mvars_prefix w (c_mreps cfg) j (d_mvars d)) = Some (l0 ++ [mval_at w r0]) /\
+  aget (fst p) (mvars_prefix w (c_mreps cfg) j (d_mvars d)) = Some lj.
+Proof.
+  intros Hnd H0 Hj Hpos l0 lj Hl0 Hlj. unfold mvars_prefix.
+  assert (forall k (F : Z * list snap -> Z * list snap) (mv : list (Z * list snap)),
+             (forall q, fst (F q) = fst q) ->
+             aget k (map F mv) = match aget k mv with Some l => Some (snd (F (k, l))) | None => None end) as Hmap.
+  { intros k F mv HF. induction mv as [|[k' l'] t IH]; simpl; [reflexivity|].
+    specialize (HF (k', l')) as HF'. destruct (F (k', l')) as [k2 l2] eqn:EF. simpl in HF'. subst k2.
+    destruct (k =? k') eqn:E; [|exact IH]. apply Z.eqb_eq in E. subst. rewrite EF. reflexivity. }
+  rewrite !Hmap by (intros [k l]; simpl; destruct (aget k (firstn j (c_mreps cfg))); reflexivity).
+  rewrite Hl0, Hlj. simpl.
+  destruct (c_mreps cfg) as [|[n0' r0'] t] eqn:Em; [discriminate|]. simpl in H0. inversion H0. subst n0' r0'.
+  destruct j as [|j']; [lia|]. simpl firstn. simpl. rewrite Z.eqb_refl. split; [reflexivity|].
+  simpl in Hj. assert (fst p <> n0) as Hne.
+  { intros Heq. simpl in Hnd. inversion Hnd as [|? ? Hn _]. apply Hn. rewrite <- Heq.
+    apply in_map. apply (nth_error_In t j' Hj). }
+  destruct (fst p =? n0) eqn:E; [apply Z.eqb_eq in E; contradiction|].
+  assert (aget (fst p) (firstn j' t) = None) as ->; [|reflexivity].
+  apply notin_aget_None. intros Hin. simpl in Hnd. inversion Hnd as [|? ? _ Hnd'].
+  (* p sits at position j' of t, the first j' elements have other names *)
+  clear -Hin Hj Hnd'. revert j' Hj Hin. induction t as [|q t IH]; intros j' Hj Hin; [destruct j'; discriminate|].
+  destruct j' as [|j'']; [simpl in Hin; contradiction|]. simpl in Hj, Hin. inversion Hnd' as [|? ? Hq Hnd'']. subst.
+  destruct Hin as [Hin|Hin].
+  - apply Hq. rewrite Hin. apply in_map. apply (nth_error_In t j'' Hj).
+  - apply (IH Hnd'' j'' Hj Hin).
+Qed.
+
+(* ================================================================== the table frame, row by row *)
+Lemma flat_map_head1 {A R : Type} (f : Z -> R -> A) (cs : list Z) r t :
+  flat_map (fun c : list A => match c with x :: _ => [x] | [] => [] end) (map (fun c => f c r :: map (f c) t) cs)
+  = map (fun c => f c r) cs.
+Proof. induction cs as [|c cs IH]; simpl; [reflexivity|]. rewrite IH. reflexivity. Qed.
+
+Lemma transpose_columns {A R : Type} (f : Z -> R -> A) (cs : list Z) (rows : list R) :
+  transpose (length rows) (map (fun c => map (f c) rows) cs) = map (fun r => map (fun c => f c r) cs) rows.
+Proof.
+  induction rows as [|r t IH]; simpl; [reflexivity|].
+  rewrite flat_map_head1. f_equal. rewrite map_map. simpl. exact IH.
+Qed.
+
+Lemma frame_of_columns_rect {A R : Type} (f : Z -> R -> A) (cs : list Z) (rows : list R) :
+  cs <> [] ->
+  frame_of_columns (map (fun c => map (f c) rows) cs) = Ok (map (fun r => map (fun c => f c r) cs) rows).
+Proof.
+  intros Hne. destruct cs as [|c0 cs']; [congruence|].
+  pose proof (transpose_columns f (c0 :: cs') rows) as Ht.
+  assert (all_len (length rows) (map (fun c => map (f c) rows) (c0 :: cs')) = true) as Hl.
+  { apply all_len_spec. intros l Hl. apply in_map_iff in Hl. destruct Hl as [c [<- _]]. apply map_length. }
+  unfold frame_of_columns. cbn [map] in *. rewrite map_length. rewrite Hl, Ht. reflexivity.
+Qed.
+
+(* the frame of table t after any history: its columns are the table's columns in declaration order, row i holds
+   the cells of the i-th accepted row (None where ignore_missing filled a missing column) *)
+Lemma table_frame_rows (cs : list Z) (rows : list (list (Z * cellv))) :
+  cs <> [] ->
+  table_frame (map (fun c => (c, map (fun r => row_cell r c) rows)) cs)
+  = Ok {| cf_cols := cs; cf_rows := map (fun r => map (fun c => row_cell r c) cs) rows |}.
+Proof.
+  intros Hne. unfold table_frame. rewrite !map_map. cbn [fst snd].
+  rewrite (frame_of_columns_rect (fun c r => row_cell r c) cs rows Hne). rewrite map_id. reflexivity.
+Qed.
